@@ -266,6 +266,32 @@ def handleSalt (toks : List String) : String :=
     s!"file {match r.file with | none => "absent" | some v => hexOf v} | " ++ " ".intercalate (r.procs.map (fun p => showPc p.pc))
   | _ => "ERR bad-op"
 
+/-! ## blob directory machine and read decision -/
+
+def handleBlob (toks : List String) : String :=
+  let ops : List BlobOp := toks.filterMap fun t =>
+    if t == "o" then some .open else if t == "x" then some .damage else if t == "d" then some .delete else if t == "n" then some .construct
+    else match t.splitOn ":" with
+      | ["b", ds, names] => some (.build ds.toNat! ((names.splitOn ",").filter (· ≠ "")))
+      | _ => none
+  let (_, outs) := ({} : BlobDir).run ops
+  let showOut : BlobOut → String
+    | .built => "built"
+    | .served ms => "served:" ++ ",".intercalate (ms.map (fun m => s!"{m.name}@{m.dataset}"))
+    | .error => "error"
+    | .done => "done"
+  " ".intercalate (outs.map showOut)
+
+def handleReadDec : P String := do
+  let na ← nN; let all ← rep na (pStr <$> nxt)
+  let nc ← nN; let cat ← rep nc (do let k ← nN; rep k (pStr <$> nxt))
+  let nr ← nN; let req ← rep nr (pStr <$> nxt)
+  let t ← nxt
+  return match readDecision all cat req (if t == "-" then none else some (pStr t)) with
+    | .invalid => "invalid"
+    | .stored k => "stored " ++ " ".intercalate (k.map (fun x => String.join (x.toUTF8.toList.map (fun b => String.ofList (Nat.toDigits 16 (b.toNat + 256)).tail))))
+    | .stitch k => "stitch " ++ " ".intercalate (k.map (fun x => String.join (x.toUTF8.toList.map (fun b => String.ofList (Nat.toDigits 16 (b.toNat + 256)).tail))))
+
 /-! ## forest state and multi-line requests -/
 
 def sIvs (l : List (Ival Float)) : String := " ".intercalate (l.map sI)
@@ -350,6 +376,12 @@ partial def loop (h : IO.FS.Stream) (out : IO.FS.Stream) (st : DState) : IO Unit
   | "patch" :: rest =>
       for l in handleStitch true rest do out.putStrLn l
       out.putStrLn "END"
+      loop h out st
+  | "blob" :: rest =>
+      out.putStrLn (handleBlob rest)
+      loop h out st
+  | "readdec" :: rest =>
+      out.putStrLn (handleReadDec.run' { toks := rest.toArray })
       loop h out st
   | "salt" :: rest =>
       out.putStrLn (handleSalt rest)
